@@ -26,7 +26,18 @@ def neumann_A(u, h):
     return out / h**2
 
 
+_SOLVERS: dict = {}
+
+
 def make_solver(shape, h, real_t):
+    """one solver object per (shape, spacing, precision): successive problems REUSE it (spectral work buffer included)."""
+    key = (tuple(shape), float(h), real_t)
+    if key not in _SOLVERS:
+        _SOLVERS[key] = _make_solver(shape, h, real_t)
+    return _SOLVERS[key]
+
+
+def _make_solver(shape, h, real_t):
     import sopht.numeric.eulerian_grid_ops as spne
 
     if len(shape) == 2:
@@ -103,6 +114,29 @@ def run(chk: core.Check):
         for real_t in (np.float64, np.float32):
             for h in (1.0, 2.0**-3):
                 solve_case(chk, shape, f, want, h, real_t, "random")
+    # histories on one solver object: zero right-hand side into a reused solution array, constant right-hand side (pure null-space
+    # component: solution must be zero), repeated solve of the same problem (bit-identical)
+    for shape in [(4, 6), (3, 4, 5)] + ([] if quick else [(9, 5), (6, 3, 4)]):
+        for real_t in (np.float64, np.float32):
+            s = make_solver(shape, 0.5, real_t)
+            u = rng.integers(-3, 4, shape).astype(float)
+            f = (neumann_A(u, 0.5)).astype(real_t)
+            a = np.zeros(shape, dtype=real_t)
+            s.solve(solution_field=a, rhs_field=f)
+            b = np.full(shape, 5.0, dtype=real_t)
+            s.solve(solution_field=b, rhs_field=f)
+            z = a.copy()
+            s.solve(solution_field=z, rhs_field=np.zeros(shape, dtype=real_t))
+            c = a.copy()
+            s.solve(solution_field=c, rhs_field=np.full(shape, 3.0, dtype=real_t))
+            chk.traces += 1
+            chk.count(("history", shape, real_t.__name__))
+            tol = 200 * float(np.finfo(real_t).eps) * max(shape) ** 2 * 4
+            if not np.array_equal(a, b):
+                chk.violation({"kind": "fastdiag_history", "dim": len(shape)}, f"FastDiag {shape} {real_t.__name__}: the same problem solved twice on one object gives different results")
+            if np.abs(z).max() > tol or np.abs(c).max() > tol:
+                chk.violation({"kind": "fastdiag_history", "dim": len(shape)},
+                              f"FastDiag {shape} {real_t.__name__}: zero / constant right-hand side into a reused solution array gives max |u| = {max(np.abs(z).max(), np.abs(c).max()):.3g} (must be 0)")
     # vector solve == three scalar solves (3-D)
     for shape in [(3, 4, 5)] + ([] if quick else [(8, 6, 4)]):
         for real_t in (np.float64, np.float32):
